@@ -275,6 +275,26 @@ func (w *world) do(o op) (ok bool, id int, dig string) {
 			return false, 0, ""
 		}
 		return true, w.id(n), ""
+	case "DecodeNil", "DecodeExclusiveNil":
+		// a decoder whose result is a nil value of an interface type (an
+		// optional object): every caller gets nil, whoever decoded first
+		defer func() {
+			if p := recover(); p != nil {
+				ok, id, dig = false, 0, fmt.Sprint("panic: ", p)
+			}
+		}()
+		decn := func(pdf.Cursor, pdf.Object, bool) (fmt.Stringer, error) { return nil, nil }
+		var v fmt.Stringer
+		var err error
+		if o.Op == "DecodeNil" {
+			v, err = pdf.Decode(w.cur, ref, decn)
+		} else {
+			v, err = pdf.DecodeExclusive(w.cur, ref, decn)
+		}
+		if err != nil || v != nil {
+			return false, 0, ""
+		}
+		return true, 0, ""
 	case "Pair":
 		a, _ := pdf.StoreOrLoadPair(w.x, ref, &node{Self: o.Ref}, &nodeB{Self: o.Ref})
 		return true, w.id(a), ""
@@ -351,6 +371,9 @@ func main() {
 					o = op{"Pair", streams[r.Intn(len(streams))]} // keys nobody decodes
 				default:
 					o = op{"Predefined", r.Intn(4)}
+					if r.Intn(2) == 0 {
+						o = op{[]string{"DecodeNil", "DecodeExclusiveNil", "DecodeExclusiveNil"}[r.Intn(3)], valRefs[r.Intn(len(valRefs))]}
+					}
 				}
 				progs[g] = append(progs[g], o)
 			}
